@@ -641,6 +641,15 @@ func (x *FnIndex) originTrace(v ssa.Value, rec func(*ssa.UnOp)) ssa.Value {
 		case *ssa.ChangeType:
 			v = t.X
 			continue
+		case *ssa.TypeAssert:
+			// a value put into an interface and asserted back to its own type (A0 2g) is that value
+			if !t.CommaOk {
+				if mi, ok := x.originTrace(t.X, rec).(*ssa.MakeInterface); ok && types.Identical(mi.X.Type(), t.AssertedType) {
+					v = mi.X
+					continue
+				}
+			}
+			return v
 		case *ssa.Phi:
 			var first ssa.Value
 			same := true
@@ -1652,7 +1661,7 @@ type counted struct {
 func (x *FnIndex) countedLoop(cell *ssa.Alloc) *counted {
 	fn := cell.Parent()
 	for _, l := range x.Loops(fn) {
-		var inc *ssa.Store
+		var incs []*ssa.Store
 		var inits []*ssa.Store
 		bad := false
 		for _, st := range x.stores[cell] {
@@ -1661,28 +1670,53 @@ func (x *FnIndex) countedLoop(cell *ssa.Alloc) *counted {
 				continue
 			}
 			if l.Blocks[st.Block()] {
-				if inc != nil {
-					bad = true
-				}
-				inc = st
+				incs = append(incs, st)
 			} else {
 				inits = append(inits, st)
 			}
 		}
-		if bad || inc == nil || len(inits) == 0 {
+		if bad || len(incs) == 0 || len(inits) == 0 {
 			continue
 		}
-		bo, ok := inc.Val.(*ssa.BinOp)
-		if !ok || bo.Op != token.ADD || x.directCell(bo.X) != cell {
-			continue
+		// one `cell + 1` per iteration: a single step, or (the tail of the body copied per way,
+		// A0 2e) one step on each way to the back edge and never two on the same way
+		okInc := true
+		for _, inc := range incs {
+			bo, ok := inc.Val.(*ssa.BinOp)
+			if !ok || bo.Op != token.ADD || x.directCell(bo.X) != cell {
+				okInc = false
+				break
+			}
+			if k, isK := constInt(bo.Y); !isK || k != 1 {
+				okInc = false
+			}
 		}
-		if k, isK := constInt(bo.Y); !isK || k != 1 {
+		if !okInc {
 			continue
 		}
 		perIter := true
 		for _, latch := range l.Latches {
-			if !inc.Block().Dominates(latch) {
+			n := 0
+			for _, inc := range incs {
+				if inc.Block().Dominates(latch) {
+					n++
+				}
+			}
+			if n != 1 {
 				perIter = false
+			}
+		}
+		if len(incs) > 1 && perIter {
+			head := l.Head.Instrs[0]
+			for _, a := range incs {
+				for _, b := range incs {
+					if a == b {
+						continue
+					}
+					if _, reach := pathExists(fn, a, func(in ssa.Instruction) bool { return in == ssa.Instruction(b) }, func(in ssa.Instruction) bool { return in == head }); reach {
+						perIter = false
+					}
+				}
 			}
 		}
 		if !perIter {
